@@ -19,3 +19,8 @@ for _p, _e in {
                   assumptions=['regex layer (which strings match, which group gets which substring) is assumed: R1 match geometry only',
                                'culture tables abstracted to declared ranges (environment values)',
                                'datedelta (missing package) month/year arithmetic not claimed'])
+
+register_meta('C14', level='proof', explanation='round-trip contracts per TIMEX grammar alternative on the real parse/format code',
+              assumptions=['re.match on the anchored TimexRegex patterns modelled structurally (pyvc/rxstruct.py)',
+                           'str(Decimal) uninterpreted, injective, assumed to have the amount shape (false for exponent notation, e.g. 1E-8)',
+                           '(start,end,duration) range TIMEX strings and Timex(...) keyword construction with partial time fields are not covered'])
